@@ -92,6 +92,18 @@ pub(super) fn escape_misused_repetition_quantifier(expression: &str) -> String {
                 expression.push(ch);
                 if let Some(ch2) = chars.next() {
                     expression.push(ch2);
+                    // an escape that carries its own braces (`\p{L}`,
+                    // `\x{1F600}`): they are not a misused quantifier
+                    if matches!(ch2, 'p' | 'P' | 'x' | 'u' | 'U')
+                        && chars.clone().next() == Some('{')
+                    {
+                        for ch3 in chars.by_ref() {
+                            expression.push(ch3);
+                            if ch3 == '}' {
+                                break;
+                            }
+                        }
+                    }
                 }
             }
             '{' | '}' => {
